@@ -51,6 +51,8 @@ type DaemonCfg struct {
 	// RelativeStorage: the storage path is left at its default ("storage") or given as a relative path, to be
 	// resolved by the binary against its base directory (or the home directory).
 	RelativeStorage bool
+	// LogLevel is the daemon's log-level setting (default "info").
+	LogLevel string
 	// GenerationTimeout, if set, is written as process.generation-timeout; ExtraPeers are further entries of the peer table.
 	GenerationTimeout string
 	ExtraPeers        map[string]string
@@ -165,6 +167,10 @@ func (d *Daemon) writeConfig() {
 `
 		_ = os.MkdirAll(filepath.Join(base, "protection"), 0o700)
 	}
+	logLevel := d.cfg.LogLevel
+	if logLevel == "" {
+		logLevel = "info"
+	}
 	peers := ""
 	for _, id := range sortedKeys(d.cfg.ExtraPeers) {
 		peers += fmt.Sprintf(`, %q: %q`, id, d.cfg.ExtraPeers[id])
@@ -174,7 +180,7 @@ func (d *Daemon) writeConfig() {
 		gt = fmt.Sprintf(`, "generation-timeout": %q`, d.cfg.GenerationTimeout)
 	}
 	text := fmt.Sprintf(`{
- "log-level": "info",
+ "log-level": "%[11]s",
  "log-file": "%[1]s/dirk.log",
  "server": {"id": 1, "name": "signer-test01", "listen-address": "%[2]s", "rules": {"admin-ips": %[3]s, "periodic-pruning": %[4]v}},
  "certificates": {"server-cert": "file://%[1]s/certs/server.crt", "server-key": "file://%[1]s/certs/server.key"%[5]s},
@@ -184,7 +190,7 @@ func (d *Daemon) writeConfig() {
  "process": {"generation-passphrase": "pass"%[10]s},
  "permissions": %[7]s
 }
-`, base, d.Addr, admin, d.cfg.Pruning, ca, d.port, perms, storage, peers, gt)
+`, base, d.Addr, admin, d.cfg.Pruning, ca, d.port, perms, storage, peers, gt, logLevel)
 	name := "dirk.json"
 	if d.cfg.HomeConfig {
 		name = ".dirk.json"
@@ -290,6 +296,9 @@ func (d *Daemon) envConfig() []string {
 		"DIRK_UNLOCKER_ACCOUNT_PASSPHRASES=pass", "DIRK_UNLOCKER_WALLET_PASSPHRASES=pass", "DIRK_PROCESS_GENERATION_PASSPHRASE=pass",
 		fmt.Sprintf(`DIRK_PEERS={"1":"signer-test01:%d"}`, d.port), "DIRK_LOG_FILE=" + d.Base + "/dirk.log",
 		fmt.Sprintf("DIRK_SERVER_RULES_PERIODIC_PRUNING=%v", d.cfg.Pruning),
+	}
+	if d.cfg.LogLevel != "" {
+		env = append(env, "DIRK_LOG_LEVEL="+d.cfg.LogLevel)
 	}
 	for _, c := range sortedKeys(table) {
 		clients[c] = map[string]string{}
